@@ -231,7 +231,14 @@ def F39():  # C29 a falsy model object cannot be exported
     mm = metamodel_from_str("Model: 'model' items*=Item; Item: 'item' name=ID;", classes=[Model])
     try: model_export_to_file(_io.StringIO(), mm.model_from_str("model")); return False
     except Exception: return True
-ALL = [F39, F38, F37, F36, F28, F1, F2, F3, F4, F5, F6, F7, F8, F9, F10, F11, F12, F13, F14, F15_16, F18, F19, F20, F21, F22, F23, F24, F26, F27]
+def F40():  # C25/C23 alias rule in an imported grammar whose target comes from that grammar's own import: KeyError
+    import os, tempfile
+    from textx import metamodel_from_file
+    d = tempfile.mkdtemp()
+    open(os.path.join(d, "c.tx"), "w").write("Y: 'y' name=ID;\n"); open(os.path.join(d, "b.tx"), "w").write("import c\nX: Y;\n"); open(os.path.join(d, "a.tx"), "w").write("import b\nModel: xs+=X;\n")
+    try: mm = metamodel_from_file(os.path.join(d, "a.tx")); m = mm.model_from_str("y a y b"); return [x.name for x in m.xs] != ["a", "b"]
+    except KeyError: return True
+ALL = [F40, F39, F38, F37, F36, F28, F1, F2, F3, F4, F5, F6, F7, F8, F9, F10, F11, F12, F13, F14, F15_16, F18, F19, F20, F21, F22, F23, F24, F26, F27]
 if __name__ == "__main__":
     sel = sys.argv[1:]
     for w in ALL:
